@@ -355,6 +355,13 @@ def build(cfg, world, shared=None):
     default_handler = (cfg.get('default_handler') and world.adjust and getattr(world, 'extra', None) is None
                        and (shared is None or 'handler' not in shared) and signals is None)
     old_env = os.environ.get('QSTRADER_CSV_DATA_DIR')
+    if default_handler and cfg.get('default_handler') == 'cwd':
+        # the caller has unset the variable and changed into the data directory: the documented current-directory fallback
+        sess = BacktestTradingSession(
+            start, end, universe, alpha, signals=signals, initial_cash=cfg['cash'], rebalance=cfg['rebalance'],
+            long_only=cfg['long_only'], fee_model=fm, burn_in_dt=ts(cfg['burn_in']) if cfg.get('burn_in') else None, **kw)
+        sess._qsmon_default_handler = True
+        return sess, sigs
     if default_handler:
         # the documented default: no data handler passed, prices read from $QSTRADER_CSV_DATA_DIR
         os.environ['QSTRADER_CSV_DATA_DIR'] = world.dir
